@@ -136,25 +136,46 @@ pub fn unique_edges(all_edges: &[[u32; 2]]) -> Vec<([u32; 2], usize)> {
 }
 
 fn boundary_loops(boundary_edges: &[[u32; 2]]) -> Vec<Vec<u32>> {
-    // Every vertex keeps the list of vertices its outgoing boundary edges lead to. Where faces
-    // touch at a single vertex there is more than one, so each step of a walk consumes the edge
-    // it follows, which also guarantees that the walks end.
-    let mut successors: HashMap<u32, Vec<u32>> = HashMap::new();
-    for edge in boundary_edges {
-        successors.entry(edge[0]).or_default().push(edge[1]);
+    // Every vertex keeps the boundary edges that leave it and the ones that arrive at it. Where
+    // faces touch at a single vertex there is more than one of each, so each step of a walk
+    // consumes the edge it follows, which also guarantees that the walks end. A walk follows
+    // outgoing edges; only when the winding of the faces is inconsistent can a vertex run out of
+    // them before the loop has closed, and the walk then continues along an arriving edge
+    // traversed backwards, so that the boundary still comes out as closed vertex cycles.
+    let mut outgoing: HashMap<u32, Vec<usize>> = HashMap::new();
+    let mut arriving: HashMap<u32, Vec<usize>> = HashMap::new();
+    for (i, edge) in boundary_edges.iter().enumerate() {
+        outgoing.entry(edge[0]).or_default().push(i);
+        arriving.entry(edge[1]).or_default().push(i);
     }
 
-    let mut starts: Vec<u32> = successors.keys().copied().collect();
+    let mut used = vec![false; boundary_edges.len()];
+    let mut take = |vertex: u32| -> Option<u32> {
+        for (edges, far_end) in [(&mut outgoing, 1usize), (&mut arriving, 0usize)] {
+            if let Some(list) = edges.get_mut(&vertex) {
+                while let Some(i) = list.pop() {
+                    if !used[i] {
+                        used[i] = true;
+                        return Some(boundary_edges[i][far_end]);
+                    }
+                }
+            }
+        }
+        None
+    };
+
+    let mut starts: Vec<u32> = boundary_edges.iter().flatten().copied().collect();
     starts.sort_unstable();
+    starts.dedup();
 
     let mut all_loops = Vec::new();
     for start_id in starts {
-        while let Some(first_id) = successors.get_mut(&start_id).and_then(|v| v.pop()) {
+        while let Some(first_id) = take(start_id) {
             let mut working = vec![start_id];
             let mut next_id = first_id;
             while next_id != start_id {
                 working.push(next_id);
-                match successors.get_mut(&next_id).and_then(|v| v.pop()) {
+                match take(next_id) {
                     Some(id) => next_id = id,
                     None => break,
                 }
